@@ -325,10 +325,60 @@ def b_optimizer(tier):
     return b
 
 
+def b_errors(tier):
+    """An exception raised inside a handler leaves a memoizing mapper as it leaves the plain one: same class, nothing cached, next call unaffected."""
+    import pymbolic.primitives as p
+    from pymbolic.geometric_algebra.primitives import MultiVectorVariable
+    from pymbolic.mapper import CachedIdentityMapper, IdentityMapper
+    from pymbolic.mapper.evaluator import CachedEvaluationMapper, EvaluationMapper
+    from pymbolic.mapper.substitutor import CachedSubstitutionMapper, SubstitutionMapper
+    b = BoundedRun("handler-errors", rule="handlers (of the evaluator: a missing attribute, a context function; of the substitution mapper: the user's substitution function; of an identity "
+                   "subclass: map_variable / map_multivector_variable) raising AttributeError, KeyError, TypeError, ValueError, NotImplementedError, ZeroDivisionError: the "
+                   "memoizing mapper ends with the exception class the plain mapper ends with, and a following call on a harmless expression returns the plain result",
+                   bound="6 exception classes x 5 mapper pairs x 4 expression shapes", functions=["CachedMapper.__call__", "Mapper.__call__"])
+    x, y, f = trees.X, trees.Y, trees.F
+    excs = [AttributeError, KeyError, TypeError, ValueError, NotImplementedError, ZeroDivisionError]
+    for exc in excs:
+        def boom(*a, **k):
+            raise exc("from the handler")
+
+        class PlainId(IdentityMapper):
+            def map_variable(self, e, *a, **k):
+                if e.name == "y":
+                    raise exc("from map_variable")
+                return e
+
+            def map_multivector_variable(self, e, *a, **k):
+                raise exc("from map_multivector_variable")
+
+        class CachedId(CachedIdentityMapper):
+            map_variable = PlainId.map_variable
+            map_multivector_variable = PlainId.map_multivector_variable
+        shapes = [p.Sum((x, p.Call(f, (y,)))), p.Product((p.Lookup(p.Variable("o"), "missing"), x)) if exc is AttributeError else p.Call(f, (x,)), p.Sum((x, y)), p.Power(MultiVectorVariable("v"), 2)]
+        pairs = [("evaluator", lambda: EvaluationMapper({"x": 3, "y": 4, "f": boom, "o": 5, "v": 2}), lambda: CachedEvaluationMapper({"x": 3, "y": 4, "f": boom, "o": 5, "v": 2})),
+                 ("substitution", lambda: SubstitutionMapper(boom), lambda: CachedSubstitutionMapper(boom)),
+                 ("identity-subclass", PlainId, CachedId)]
+        for pname, mk_plain, mk_cached in pairs:
+            for e in shapes:
+                want = outcome.run(lambda: mk_plain()(e))
+                cm = mk_cached()
+                got = outcome.run(lambda: cm(e))
+                b.case((exc.__name__, pname, repr(e)), nontrivial=want[0] == "exc", sample=dict(exception=exc.__name__, mapper=pname, expr=repr(e)[:80]))
+                same = got[0] == want[0] and (got[1] is want[1] if got[0] == "exc" else got[1] == want[1])
+                after_ok = True
+                if pname == "identity-subclass":
+                    after = outcome.run(lambda: cm(p.Sum((x, 1))))
+                    after_ok = after == ("val", p.Sum((x, 1)))
+                if not (same and after_ok):
+                    b.fail(Failure("handler-errors", f"exception={exc.__name__} mapper={pname} expr={e!r}", dict(kind="herr", exception=exc.__name__, mapper=pname, expr=repr(e)),
+                                   expected=outcome.describe(want)[:120], actual=outcome.describe(got)[:120] + ("" if after_ok else " / next call wrong"), functions=["CachedMapper.__call__"]))
+    return b
+
+
 def bounded(tier, seed, procs):
-    return [b_histories(tier), b_once(tier), b_types(tier), b_optimizer(tier)]
+    return [b_histories(tier), b_once(tier), b_types(tier), b_optimizer(tier), b_errors(tier)]
 
 
 def replay(case):
-    f = {"hist": b_histories, "once": b_once, "types": b_types}.get(case.get("kind"), b_optimizer)
+    f = {"hist": b_histories, "once": b_once, "types": b_types, "herr": b_errors}.get(case.get("kind"), b_optimizer)
     return any(x.case == case for x in f("quick").failures)
